@@ -8,6 +8,7 @@ import (
 	"encoding/json"
 	"fmt"
 	"os"
+	"reflect"
 	"runtime"
 	"sort"
 	"sync"
@@ -37,6 +38,7 @@ type Scenario struct {
 	Procs      int     `json:"gomaxprocs"`
 	MapPolicy  int     `json:"map_policy"`
 	SkipAlone  bool    `json:"skip_alone,omitempty"`
+	Typed      bool    `json:"typed,omitempty"`
 }
 
 // Result of one scenario.
@@ -100,6 +102,9 @@ func runPhase(t *testing.T, sc *Scenario, tasks [][]Call, faults, trivial bool, 
 		for oi, c := range calls {
 			ti, oi := ti+origin[0], oi+origin[1]
 			rec := &CallRecord{Task: ti, Op: oi, Call: c, Tag: fmt.Sprintf("t%d-o%d", ti, oi)}
+			if c.TOp != "" {
+				rec.T = &TypedRec{Op: c.TOp}
+			}
 			if !faults {
 				rec.Call.Fault = nil
 			} else if f := c.Fault; f != nil && f.Frac > 0 {
@@ -124,23 +129,41 @@ func runPhase(t *testing.T, sc *Scenario, tasks [][]Call, faults, trivial bool, 
 		}
 		for _, r := range recs {
 			r.seal()
+			r.sealTyped(sc.Pkg)
 		}
 	}()
 	synctest.Test(t, func(t *testing.T) {
 		start := time.Now()
 		var wg sync.WaitGroup
 		tr := &SimTransport{MinChunk: minC, MaxChunk: maxC, WG: &wg}
-		newServer := servers[sc.Pkg]
-		if newServer == nil {
-			res.trouble = "unknown corpus package " + sc.Pkg
-			return
+		var client any
+		var impls map[string][]reflect.Type
+		if sc.Typed {
+			tp := typedPkgs[sc.Pkg]
+			if tp == nil {
+				res.trouble = "unknown typed corpus package " + sc.Pkg
+				return
+			}
+			impls = tp.Impls
+			h, cl, err := tp.New(typedHandler(tp.Impls), typedNewError, typedFill, tr, typedMiddleware, secondMiddleware)
+			if err != nil {
+				res.trouble = err.Error()
+				return
+			}
+			tr.Handler, client = h, cl
+		} else {
+			newServer := servers[sc.Pkg]
+			if newServer == nil {
+				res.trouble = "unknown corpus package " + sc.Pkg
+				return
+			}
+			h, err := newServer(recordingMiddleware, secondMiddleware)
+			if err != nil {
+				res.trouble = err.Error()
+				return
+			}
+			tr.Handler = h
 		}
-		h, err := newServer(recordingMiddleware)
-		if err != nil {
-			res.trouble = err.Error()
-			return
-		}
-		tr.Handler = h
 		var cwg sync.WaitGroup
 		idx := 0
 		for ti, calls := range tasks {
@@ -180,7 +203,11 @@ func runPhase(t *testing.T, sc *Scenario, tasks [][]Call, faults, trivial bool, 
 								cancel()
 							}()
 						}
-						doRaw(ctx, tr, rec)
+						if rec.T != nil {
+							doTyped(ctx, client, impls, rec)
+						} else {
+							doRaw(ctx, tr, rec)
+						}
 					}()
 				}
 			}(mine)
